@@ -7,6 +7,7 @@ import (
 	sync "github.com/MixinNetwork/mixin/verifmc/vsync"
 
 	"github.com/MixinNetwork/mixin/common"
+	"github.com/MixinNetwork/mixin/config"
 	"github.com/MixinNetwork/mixin/crypto"
 	"github.com/dgraph-io/badger/v4"
 	"github.com/dgraph-io/badger/v4/options"
@@ -17,8 +18,10 @@ import (
 
 // OpenForVerif opens a store. dir=="" gives two in-memory Badger DBs.
 func OpenForVerif(dir string) (*BadgerStore, error) {
+	custom := &config.Custom{}
+	custom.Node.CacheTTL = 7200
 	if dir != "" {
-		return NewBadgerStore(nil, dir)
+		return NewBadgerStore(custom, dir)
 	}
 	open := func() (*badger.DB, error) {
 		opts := badger.DefaultOptions("").WithInMemory(true)
@@ -35,7 +38,7 @@ func OpenForVerif(dir string) (*BadgerStore, error) {
 	if err != nil {
 		return nil, err
 	}
-	return &BadgerStore{snapshotsDB: sdb, cacheDB: cdb, mutex: new(sync.RWMutex)}, nil
+	return &BadgerStore{custom: custom, snapshotsDB: sdb, cacheDB: cdb, mutex: new(sync.RWMutex)}, nil
 }
 
 func dumpDB(db *badger.DB, prefix string) map[string]string {
